@@ -73,6 +73,11 @@ def obligations(tier):
                                 obs.append({'h': 'loop', 'kind': kind, 'req': req, 'place': place, 'codes': codes, 'excs': excs,
                                             'ret': r, 'term': list(term), 'nmax': nmax if deep else nmax - 1,
                                             '_weight': 10 + 50 * deep})
+                                if place in ('client', 'request') and codes == 'one' and excs == 'timeout' and req != 'notif':
+                                    # the same, as the SECOND request of a client whose first request was retried once:
+                                    # budget and backoff are per request, not per client
+                                    obs.append({'h': 'loop', 'kind': kind, 'req': req, 'place': place, 'codes': codes, 'excs': excs,
+                                                'ret': r, 'term': list(term), 'nmax': nmax - 1, 'prelude': 1, '_weight': 20})
     return obs
 
 
@@ -119,12 +124,16 @@ def h_loop(ob):
         from pjrpc.client import retry as retry_mod
         n = env.int('attempts', 0, ob['nmax'])
         interval = 1.5
-        jit = iter(range(100))
+        jc = [0]
+
+        def jitter():
+            jc[0] += 1
+            return (jc[0] - 1) * 0.25
         codes = CODESETS[ob['codes']]
         excs = {TimeoutError} if ob['excs'] == 'timeout' else None
         # delays are pairwise distinct (1.5, 1.75, 2.0, ...) so that the ORDER of the backoff's delays is observable
         strategy = retry_mod.RetryStrategy(
-            backoff=retry_mod.PeriodicBackoff(attempts=n, interval=interval, jitter=lambda: next(jit) * 0.25),
+            backoff=retry_mod.PeriodicBackoff(attempts=n, interval=interval, jitter=jitter),
             codes=codes, exceptions=excs)
         other = retry_mod.RetryStrategy(backoff=retry_mod.PeriodicBackoff(attempts=ob['nmax'] + 3, interval=99),
                                         codes={2000, 2001}, exceptions={Exception})
@@ -174,7 +183,14 @@ def h_loop(ob):
 
         is_batch = ob['req'] == 'batch'
 
+        phase = ['prelude' if ob.get('prelude') else 'main']
+
         def script(k, doc, notif):
+            if phase[0] == 'prelude':
+                # an earlier request on the same client: one listed failure, then success (concrete)
+                if k == 0:
+                    return {'jsonrpc': '2.0', 'id': None if is_batch else 1, 'error': {'code': min(codes), 'message': 'pre'}}
+                return [{'jsonrpc': '2.0', 'id': 1, 'result': 0}] if is_batch else {'jsonrpc': '2.0', 'id': 1, 'result': 0}
             o = outcome(k)
             outcomes.append(o)
             if 'exc' in o:
@@ -208,6 +224,14 @@ def h_loop(ob):
                 call = lambda c: c.send(nreq, **send_kw)  # noqa: E731
             raised = None
             result = None
+            if phase[0] == 'prelude':
+                try:
+                    rig.do(call)
+                except Exception:
+                    pass
+                phase[0] = 'main'
+                del rig.sent[:], rig.flags[:], clock.sleeps[:], aclock.sleeps[:], outcomes[:]
+                jc[0] = 0
             try:
                 result = rig.do(call)
             except (TimeoutError, ConnectionError) as e:
